@@ -221,11 +221,18 @@ func GenBackendScenario(seed uint64, tier string) *Scenario {
 	if sc.Cfg.KeyD == "s3" && g.Intn(2) == 0 {
 		sc.Extra["clients"] = 2 + g.Intn(3)
 	}
+	// several instances of the back end in one process: same names and prefix, but a different
+	// bucket (odd instances) or a different endpoint/client (instance 2), a different directory,
+	// a different in-memory store
+	sc.Cfg.Disks = 1 + g.Intn(3)
+	if sc.Extra["clients"] > 1 {
+		sc.Cfg.Disks = 1
+	}
 	n := g.Range(4, 24)
 	written := map[int]int{}
 	for i := 0; i < n; i++ {
 		name := g.Intn(sc.Cfg.U)
-		op := Op{Key: name}
+		op := Op{Key: name, T: g.Intn(sc.Cfg.Disks)}
 		if g.Intn(2) == 0 {
 			op.K = "store"
 			if pv, ok := written[name]; ok {
@@ -278,55 +285,81 @@ func RunBackendScenario(t *testing.T, sc *Scenario) (w *World) {
 		}
 	}()
 	binding := sc.Cfg.KeyD
-	var p mast.Persist
-	var s3sim *SimS3
-	var dir string
-	switch binding {
-	case "mem":
-		p = mast.NewInMemoryStore()
-	case "file":
-		base := os.Getenv("VERIF_OUT")
-		if base == "" {
-			base = os.TempDir()
-		}
-		dir = filepath.Join(base, fmt.Sprintf("be-%d-%x", os.Getpid(), sc.Seed))
-		os.RemoveAll(dir)
-		if err := os.MkdirAll(dir, 0o755); err != nil {
-			w.st.Truncated = "harness: " + err.Error()
+	nInst := sc.Cfg.Disks
+	if nInst < 1 {
+		nInst = 1
+	}
+	var insts []*beInstance
+	var sims []*SimS3
+	for i := 0; i < nInst; i++ {
+		in := &beInstance{model: map[int][]byte{}}
+		switch binding {
+		case "mem":
+			in.p = mast.NewInMemoryStore()
+		case "file":
+			base := os.Getenv("VERIF_OUT")
+			if base == "" {
+				base = os.TempDir()
+			}
+			in.dir = filepath.Join(base, fmt.Sprintf("be-%d-%x-%d", os.Getpid(), sc.Seed, i))
+			os.RemoveAll(in.dir)
+			if err := os.MkdirAll(in.dir, 0o755); err != nil {
+				w.st.Truncated = "harness: " + err.Error()
+				return w
+			}
+			defer os.RemoveAll(in.dir)
+			in.p = mastfile.NewPersistForPath(in.dir)
+		case "s3":
+			// instance 0: the configured bucket; instance 1: another bucket on the same client;
+			// instance 2: the same bucket name on another endpoint (another client)
+			in.bucket = sc.Cfg.Cache
+			endpoint := "sim://s3"
+			if i == 1 {
+				in.bucket = sc.Cfg.Cache + "-second"
+			}
+			if i == 2 || len(sims) == 0 {
+				sims = append(sims, NewSimS3())
+				if i == 2 {
+					endpoint = "sim://s3-other"
+				}
+			}
+			in.s3 = sims[len(sims)-1]
+			sp := masts3.NewPersist(in.s3, endpoint, in.bucket, sc.Cfg.ValD)
+			in.p = &sp
+		default:
 			return w
 		}
-		defer os.RemoveAll(dir)
-		p = mastfile.NewPersistForPath(dir)
-	case "s3":
-		s3sim = NewSimS3()
-		sp := masts3.NewPersist(s3sim, "sim://s3", sc.Cfg.Cache, sc.Cfg.ValD)
-		p = &sp
-	default:
-		return w
+		insts = append(insts, in)
 	}
 	clients := 1
 	if sc.Extra != nil && sc.Extra["clients"] > 1 && binding == "s3" {
 		clients = sc.Extra["clients"]
 	}
 	if clients == 1 {
-		w.runBackendSequential(sc, p, s3sim, dir)
+		w.runBackendSequential(sc, insts)
 	} else {
-		synctest.Test(t, func(t *testing.T) { w.runBackendConcurrent(sc, p, s3sim, clients) })
+		synctest.Test(t, func(t *testing.T) { w.runBackendConcurrent(sc, insts[0].p, insts[0].s3, clients) })
 	}
-	if s3sim != nil {
+	for _, s3sim := range sims {
 		for k, v := range s3sim.Fired {
 			w.st.Faults[k] += v
 		}
-		// the S3 backend reads and writes exactly prefix+name in the configured bucket
+		// the S3 backend reads and writes exactly prefix+name in the configured bucket(s)
 		if w.viol == nil {
 			allowed := map[string]bool{}
 			for _, op := range sc.Ops {
 				allowed[sc.Cfg.ValD+beName(op.Key)] = true
 			}
+			buckets := map[string]bool{}
+			for _, in := range insts {
+				if in.s3 == s3sim {
+					buckets[in.bucket] = true
+				}
+			}
 			for _, c := range s3sim.Calls {
 				w.st.Steps++
-				if c.Bucket != sc.Cfg.Cache {
-					w.fail("s3-wrong-bucket", "S3 %s on bucket %q, configured %q", c.Op, c.Bucket, sc.Cfg.Cache)
+				if !buckets[c.Bucket] {
+					w.fail("s3-wrong-bucket", "S3 %s on bucket %q, which is not a configured bucket of this client", c.Op, c.Bucket)
 					break
 				}
 				if !allowed[c.Key] {
@@ -343,12 +376,27 @@ func RunBackendScenario(t *testing.T, sc *Scenario) (w *World) {
 	return w
 }
 
-func (w *World) runBackendSequential(sc *Scenario, p mast.Persist, s3sim *SimS3, dir string) {
-	model := map[int][]byte{}
+type beInstance struct {
+	p      mast.Persist
+	s3     *SimS3
+	dir    string
+	bucket string
+	model  map[int][]byte
+}
+
+func (w *World) runBackendSequential(sc *Scenario, insts []*beInstance) {
 	for i := range sc.Ops {
 		op := &sc.Ops[i]
 		w.opIdx = i
 		w.st.Ops++
+		in := insts[0]
+		if op.T >= 0 && op.T < len(insts) {
+			in = insts[op.T]
+		}
+		p, s3sim, dir, model := in.p, in.s3, in.dir, in.model
+		if op.T > 0 {
+			w.st.Probes["second-instance-op"]++
+		}
 		name := beName(op.Key)
 		switch op.K {
 		case "store":
@@ -679,6 +727,11 @@ func RunBackendShard(t *testing.T, env *ShardEnv) *ShardReport {
 				continue
 			}
 			vr := handleViolation(t, env, sc, w, RunBackendScenario)
+			if vr.Replay == "" {
+				rep.Truncated["violation-not-reproducible-in-fresh-process"]++
+				rep.Note = "some in-process failures did not reproduce in a fresh process (state leaking between runs of one process): " + vr.Signature
+				continue
+			}
 			rep.Violations = append(rep.Violations, vr)
 			unknown++
 			if unknown >= 3 {
